@@ -50,6 +50,18 @@ if "C08" in REGISTRY:
     _e["partial"] = list(_e.get("partial", [])) + ["exactness in the reverse direction (every element of an offset set is realised by some value) is not proved; it is observed through the wire and layout correspondences"]
     REGISTRY["C08"] = _e
 
+# bit-level reader / writer refinement (both code paths of _BitWriter / _BitReader), shared by C06 and C07
+for _pid in ("C06", "C07"):
+    if _pid in REGISTRY:
+        _e = dict(REGISTRY[_pid])
+        _e["module"] = list(_e["module"]) + ["Props.C06BitIO"]
+        _e["suites"] = list(_e["suites"]) + [("bitio", (3000, 100000))]
+        _e["partial"] = [p for p in _e.get("partial", []) if "one function in the model" not in p]
+        _e["level_text"] = _e["level_text"] + (" The two code paths of _BitWriter.write_bits / _BitReader.read_bits (incl. the limit logic of bounded sub-readers) are modelled "
+                                               "separately (Model/BitIO.lean) and proved to refine the single stream function of the codec model for every offset, width and "
+                                               "operation history (Props/C06BitIO.lean); tied to the private classes by the bitio correspondence.")
+        REGISTRY[_pid] = _e
+
 # Only properties listed in harness/enabled.txt are claimed (groups still under construction stay out of MANIFEST.json).
 _enabled = {l.strip() for l in (Path(__file__).resolve().parent / "enabled.txt").read_text().split() if l.strip()}
 PENDING = {k: v for k, v in REGISTRY.items() if k not in _enabled}
